@@ -906,7 +906,7 @@ fn repo_vectors() -> Vec<(bool, String, String, usize, String, EcdsaSighashType,
 
 fn vectors(out: &mut Out) {
     let vs = repo_vectors();
-    out.s("repo_vectors_found", vs.len() >= 14, || format!("found {} vectors in /repo/src/sighash.rs", vs.len()));
+    out.pin("repo_vectors_found", vs.len() >= 14, || format!("found {} vectors in /repo/src/sighash.rs", vs.len()));
     for (segwit, txh, sch, idx, valh, ty, exp) in vs {
         let tx: Transaction = match deserialize(&crate::unhex(&txh)) { Ok(t) => t, Err(_) => { out.s("repo_vector_parses", false, || txh.clone()); continue; } };
         let script = Script::from(crate::unhex(&sch));
